@@ -88,7 +88,7 @@ def run_shard(desc):
             continue
         for orient in orients:
             for ii, ids in enumerate(idl):
-                d = dyn.build(topo, kt, orient, ids, (orient + ii) % n)
+                d = dyn.build(topo, kt, orient, ids, (orient + ii) % n, labels=(dyn.LABELS_LIKE_IDS[:n] if ii % 2 else None))
                 judge_circuit(d, cm_, tier, res)
                 if orient == orients[0]:
                     # a voltage source whose nominal value is 0 V is a model source like any other: its waveform comes from `input`
